@@ -193,3 +193,61 @@ def run_shard(args):
         if b:
             bad.append(b)
     return evals, bad
+
+
+def run_instance_requests(seed):
+    """`pipeline(id)[names]` / `pipeline(id).name` (Instance access): one request for several names - properties among them - is ONE call of one
+    compiled function: the values of `_compile(names)(id)`, every shared upstream function executed once (C01, C03)"""
+    from .pipeline import Builder
+    from .sym import SymWorld
+    rng = random.Random(seed)
+    world = SymWorld()
+    b = Builder(world)
+    imp = rng.random() < 0.5
+    src = {'k': 'source', 'cls': 'IS', 'ids': ['a', 'b', 'c'], 'params': {'_l': {'args': [], 'impure': imp}}, 'cargs': {}, 'defaults': {},
+           'fields': {'m': {'args': ['_l'], 'meta': True}, 'x': {'args': ['i', '_l']}, 'y': {'args': ['i']}}}
+    t = {'k': 'transform', 'cls': 'IT', 'fields': {'z': {'args': ['x']}}, 'params': {}, 'cargs': {}, 'defaults': {}, 'inherit': True}
+    problems = []
+    try:
+        pipe = b.layer({'k': 'chain', 'flavour': 'chain', 'layers': [src, t]})
+        for names in [('m', 'x'), ('x', 'z'), ('m', 'z', 'y'), ('ids', 'x')]:
+            mark = world.mark()
+            want = pipe._compile(names)('b')
+            ref_calls = sorted(c[0] for c in world.since(mark))
+            mark = world.mark()
+            got = pipe('b')[names]
+            calls = sorted(c[0] for c in world.since(mark))
+            strip = (lambda v: canon(val_to_json(v, world))) if not imp else (lambda v: len(v))
+            if calls != ref_calls:
+                problems.append({'names': names, 'msg': f'pipeline("b")[{names}] executed {calls}, one call of the compiled function for {names} executes {ref_calls}'})
+                break
+            if strip(tuple(got)) != strip(tuple(want)):
+                problems.append({'names': names, 'msg': f'pipeline("b")[{names}] returned {canon(val_to_json(tuple(got), world))[:150]}, the compiled function returns '
+                                                        f'{canon(val_to_json(tuple(want), world))[:150]}'})
+                break
+            if imp and 'm' in names and 'x' in names:
+                # the property and the field of one request see ONE draw of the impure parameter
+                jm = json_draws(val_to_json(tuple(got), world))
+                if len(jm) != 1:
+                    problems.append({'names': names, 'msg': f'one request pipeline("b")[{names}] saw {len(jm)} different draws of the impure parameter `_l`'})
+                    break
+    except Exception as e:
+        problems.append({'msg': 'Instance scenario raised ' + exc_name(e) + ': ' + str(e)[:160]})
+    return problems
+
+
+def json_draws(j, acc=None):
+    """the serial numbers of the impure draws inside an encoded value"""
+    acc = set() if acc is None else acc
+    if isinstance(j, dict):
+        if 'imp' in j:
+            acc.add(j['imp'][1])
+            for x in j['imp'][3] + j['imp'][5]:
+                json_draws(x, acc)
+        else:
+            for v in j.values():
+                json_draws(v, acc)
+    elif isinstance(j, list):
+        for x in j:
+            json_draws(x, acc)
+    return acc
